@@ -642,6 +642,14 @@ func (r *rewriter) rangeMap(s *ast.RangeStmt) ast.Stmt {
 		fatal("%s: range over a map expression with possible side effects", r.pos(s))
 	}
 	m := s.X
+	// hooked reads of the map held in a field (goat's own code only): ranging over it reads it,
+	// at the start and at every element
+	mread := func() ast.Expr {
+		if !r.harness && r.isFieldSel(m) && r.chainOK(m) {
+			return r.wrapAccess(m, false)
+		}
+		return m
+	}
 	kv := ast.Expr(r.fresh("mk"))
 	var head []ast.Stmt
 	if !isBlank(s.Key) {
@@ -660,7 +668,7 @@ func (r *rewriter) rangeMap(s *ast.RangeStmt) ast.Stmt {
 			// value assigned to an outer variable: use a temporary for ok
 			tmpv := r.fresh("mv")
 			head = append([]ast.Stmt{
-				&ast.AssignStmt{Lhs: []ast.Expr{tmpv, okv}, Tok: token.DEFINE, Rhs: []ast.Expr{&ast.IndexExpr{X: m, Index: kv}}},
+				&ast.AssignStmt{Lhs: []ast.Expr{tmpv, okv}, Tok: token.DEFINE, Rhs: []ast.Expr{&ast.IndexExpr{X: mread(), Index: kv}}},
 				&ast.IfStmt{Cond: &ast.UnaryExpr{Op: token.NOT, X: okv}, Body: &ast.BlockStmt{List: []ast.Stmt{&ast.BranchStmt{Tok: token.CONTINUE}}}},
 				&ast.AssignStmt{Lhs: []ast.Expr{s.Value}, Tok: token.ASSIGN, Rhs: []ast.Expr{tmpv}},
 			}, head...)
@@ -669,7 +677,7 @@ func (r *rewriter) rangeMap(s *ast.RangeStmt) ast.Stmt {
 	}
 	if valLhs != nil {
 		head = append([]ast.Stmt{
-			&ast.AssignStmt{Lhs: []ast.Expr{valLhs, okv}, Tok: tok, Rhs: []ast.Expr{&ast.IndexExpr{X: m, Index: kv}}},
+			&ast.AssignStmt{Lhs: []ast.Expr{valLhs, okv}, Tok: tok, Rhs: []ast.Expr{&ast.IndexExpr{X: mread(), Index: kv}}},
 			&ast.IfStmt{Cond: &ast.UnaryExpr{Op: token.NOT, X: okv}, Body: &ast.BlockStmt{List: []ast.Stmt{&ast.BranchStmt{Tok: token.CONTINUE}}}},
 		}, head...)
 	}
@@ -679,7 +687,7 @@ func (r *rewriter) rangeMap(s *ast.RangeStmt) ast.Stmt {
 	if r.harness {
 		fn = "MapKeysSorted" // harness loops: fixed order
 	}
-	return &ast.RangeStmt{Key: ast.NewIdent("_"), Value: kv, Tok: token.DEFINE, X: r.call(fn, m), Body: body}
+	return &ast.RangeStmt{Key: ast.NewIdent("_"), Value: kv, Tok: token.DEFINE, X: r.call(fn, mread()), Body: body}
 }
 
 func (r *rewriter) rangeChan(s *ast.RangeStmt) ast.Stmt {
